@@ -59,6 +59,11 @@ type c02Setup struct {
 	MaxIdx    int64                  `json:"maxidx,omitempty"` // 0: the default (1024)
 	NumKeys   bool                   `json:"numkeys,omitempty"`
 	Escape    bool                   `json:"escape,omitempty"`
+	// one Config (made once) that is merged into the root and into every Env config
+	Shared map[string]interface{} `json:"shared,omitempty"`
+	// variables of the process environment, looked up last through ucfg.ResolveEnv (a variable
+	// that is set to the empty string counts as not set)
+	OSEnv map[string]string `json:"osenv,omitempty"`
 }
 
 func (s c02Setup) build() (*ucfg.Config, []ucfg.Option, string, bool) {
@@ -89,6 +94,15 @@ func (s c02Setup) build() (*ucfg.Config, []ucfg.Option, string, bool) {
 			return nil, nil, "", false
 		}
 	}
+	var shared *ucfg.Config
+	if s.Shared != nil {
+		if shared, err = ucfg.NewFrom(s.Shared, base...); err != nil {
+			return nil, nil, "", false
+		}
+		if err = root.Merge(shared, base...); err != nil {
+			return nil, nil, "", false
+		}
+	}
 	opts := append([]ucfg.Option{}, base...)
 	var envs []string
 	for _, e := range s.Envs {
@@ -96,12 +110,31 @@ func (s c02Setup) build() (*ucfg.Config, []ucfg.Option, string, bool) {
 		if err != nil {
 			return nil, nil, "", false
 		}
+		if shared != nil {
+			if err := ec.Merge(shared, base...); err != nil {
+				return nil, nil, "", false
+			}
+		}
 		opts = append(opts, ucfg.Env(ec))
 		envs = append(envs, coqValue(ucfg.VerifDump(ec)))
 	}
 	var res []string
 	for _, t := range s.Resolvers {
 		opts = append(opts, ucfg.Resolve(t.fn()))
+		res = append(res, t.coq())
+	}
+	if s.OSEnv != nil {
+		t := resolverTable{}
+		for k, v := range s.OSEnv {
+			os.Setenv(k, v)
+			if v != "" {
+				t[k] = struct {
+					Val string `json:"val"`
+					Cfg int    `json:"cfg"`
+				}{v, 1}
+			}
+		}
+		opts = append(opts, ucfg.ResolveEnv)
 		res = append(res, t.coq())
 	}
 	no := normOpts{Sep: ".", VarExp: true, MaxIdx: s.MaxIdx, NumKeys: s.NumKeys, Escape: s.Escape}
@@ -120,6 +153,9 @@ func encSetup(s c02Setup) interface{} {
 		envs = append(envs, encTree(e))
 	}
 	out := map[string]interface{}{"root": encTree(s.Root), "envs": envs, "resolvers": s.Resolvers}
+	if s.Shared != nil {
+		out["shared"] = encTree(s.Shared)
+	}
 	if s.MaxIdx != 0 {
 		out["maxidx"] = s.MaxIdx
 	}
@@ -461,6 +497,15 @@ func genC02(g *Gen, c08 bool) {
 		{Root: map[string]interface{}{"x": "${s.inner}"}, Envs: []map[string]interface{}{{"s": "${u}", "v": "env1"}, {"u": map[string]interface{}{"inner": "${v}"}, "v": "env2"}}},
 		{Root: map[string]interface{}{"x": "${s.inner}", "v": "own"}, Envs: []map[string]interface{}{{"u": map[string]interface{}{"inner": "${v}"}, "v": "env2"}, {"s": "${u}", "v": "env1"}}},
 		{Root: map[string]interface{}{"s": "${u}", "x": "${s.inner}", "v": "own"}, Envs: []map[string]interface{}{{"u": map[string]interface{}{"inner": "${v}"}, "v": "env2"}}},
+		// the process environment as the last resolver: a variable set to the empty string counts as
+		// not set, so a resolver added before knows it
+		{Root: map[string]interface{}{"a": "${UCFG_VERIF_EMPTY}", "b": "pre-${UCFG_VERIF_EMPTY}", "c": "${UCFG_VERIF_SET}", "d": "${UCFG_VERIF_EMPTY:dflt}", "e": "${UCFG_VERIF_ONLY_EMPTY}"},
+			Resolvers: []resolverTable{{"UCFG_VERIF_EMPTY": {"custom", 0}, "UCFG_VERIF_SET": {"custom2", 0}}},
+			OSEnv:     map[string]string{"UCFG_VERIF_EMPTY": "", "UCFG_VERIF_SET": "from-env", "UCFG_VERIF_ONLY_EMPTY": ""}},
+		// one block of settings merged into the configuration and into an Env config (the second use of
+		// a Config as a merge source): each copy is looked up from the root of the tree it lives in
+		{Root: map[string]interface{}{"who": "root", "out": "${name} ${greeting}", "out2": "${greeting} ${name}"},
+			Envs: []map[string]interface{}{{"who": "env", "greeting": "${name}"}}, Shared: map[string]interface{}{"name": "${who}"}},
 		// the path of a reference runs into a value that is no object: the name is not found in the tree, a resolver may know it
 		{Root: map[string]interface{}{"a": uint64(5), "out": "${a.b.c}", "o2": "x${a.b.c}", "o3": "${a.b.c:dflt}"}, Resolvers: []resolverTable{{"a.b.c": {"from the resolver", 0}}}},
 		{Root: map[string]interface{}{"out": "${a.b.c}"}, Envs: []map[string]interface{}{{"a": true}}, Resolvers: []resolverTable{{"a.b.c": {"r", 0}}}},
